@@ -290,8 +290,63 @@ func collidingIDs(t1, id1, t2 string) []string {
 	return out
 }
 
-// swapPlaceholder is an attribute name no generated type uses.
+// swapPlaceholder is a field name no generated type uses.
 const swapPlaceholder = "zz--swap--placeholder"
+
+// SoftWithLateField draws a filled soft resource of the type (which must
+// have a field) whose type was edited under it: while the values were set a
+// placeholder stood in for one field; the type was then edited through its
+// pointer (placeholder out, field in, the number of fields unchanged), so
+// that field reads as its zero value - the documented behaviour of
+// SoftResource for fields added to its type.
+func SoftWithLateField(t *rapid.T, ts *TypeSpec, label string) (jsonapi.Resource, map[string]any) {
+	typ := SoftTypeOf(ts)
+	res := &jsonapi.SoftResource{Type: &typ}
+
+	i := rapid.IntRange(0, len(ts.Attrs)+len(ts.Rels)-1).Draw(t, label+"-late")
+	if i >= len(ts.Attrs) && ts.RelKeys != nil {
+		i = 0
+	}
+
+	if i < len(ts.Attrs) {
+		a := ts.Attrs[i]
+
+		delete(typ.Attrs, a.Name)
+		typ.Attrs[swapPlaceholder] = jsonapi.Attr{Name: swapPlaceholder, Type: jsonapi.AttrTypeString}
+
+		vals := FillResource(t, res, ts, label)
+
+		res.Set(swapPlaceholder, "placeholder")
+		typ.RemoveAttr(swapPlaceholder)
+		typ.Attrs[a.Name] = a
+		vals[a.Name] = ZeroValue(a)
+
+		return res, vals
+	}
+
+	if len(ts.Attrs) == 0 && ts.RelKeys != nil {
+		return res, FillResource(t, res, ts, label)
+	}
+
+	r := ts.Rels[i-len(ts.Attrs)]
+
+	delete(typ.Rels, r.FromName)
+	typ.Rels[swapPlaceholder] = jsonapi.Rel{FromType: ts.Name, FromName: swapPlaceholder, ToType: ts.Name, ToOne: true}
+
+	vals := FillResource(t, res, ts, label)
+
+	res.Set(swapPlaceholder, "somebody")
+	typ.RemoveRel(swapPlaceholder)
+	typ.Rels[r.FromName] = r
+
+	if r.ToOne {
+		vals[r.FromName] = ""
+	} else {
+		vals[r.FromName] = []string{}
+	}
+
+	return res, vals
+}
 
 // Document draws a document case.
 func Document(t *rapid.T, o DocOpts) *DocCase {
@@ -308,29 +363,14 @@ func Document(t *rapid.T, o DocOpts) *DocCase {
 	newRes := func(ts *TypeSpec, label string, soft bool) (ResModel, bool) {
 		var res jsonapi.Resource
 
-		var swapped *jsonapi.Attr
+		var vals map[string]any
 
 		switch {
+		case soft && len(ts.Attrs)+len(ts.Rels) > 0 && rapid.IntRange(0, 3).Draw(t, label+"-swap") == 0:
+			res, vals = SoftWithLateField(t, ts, label)
 		case soft:
 			typ := SoftTypeOf(ts)
 			res = &jsonapi.SoftResource{Type: &typ}
-
-			// The type of a soft resource may be edited under it: sometimes an
-			// attribute only replaces a placeholder after the values were
-			// set, and so reads as its zero value.
-			if len(ts.Attrs) > 0 && rapid.IntRange(0, 3).Draw(t, label+"-swap") == 0 {
-				a := ts.Attrs[rapid.IntRange(0, len(ts.Attrs)-1).Draw(t, label+"-swapattr")]
-				swapped = &a
-
-				delete(typ.Attrs, a.Name)
-				typ.Attrs[swapPlaceholder] = jsonapi.Attr{Name: swapPlaceholder, Type: jsonapi.AttrTypeString}
-
-				defer func(typ *jsonapi.Type) {
-					res.Set(swapPlaceholder, "placeholder")
-					typ.RemoveAttr(swapPlaceholder)
-					typ.Attrs[a.Name] = a
-				}(&typ)
-			}
 		case rapid.Bool().Draw(t, label+"-viaNew"):
 			typ := ss.Schema.GetType(ts.Name)
 			res = typ.New()
@@ -338,12 +378,11 @@ func Document(t *rapid.T, o DocOpts) *DocCase {
 			res = NewResource(ts)
 		}
 
-		vals := FillResource(t, res, ts, label)
-		key := ts.Name + "\x00" + vals["id"].(string)
-
-		if swapped != nil {
-			vals[swapped.Name] = ZeroValue(*swapped)
+		if vals == nil {
+			vals = FillResource(t, res, ts, label)
 		}
+
+		key := ts.Name + "\x00" + vals["id"].(string)
 
 		if usedIDs[key] {
 			return ResModel{}, false
@@ -653,6 +692,21 @@ func Document(t *rapid.T, o DocOpts) *DocCase {
 
 		if rapid.Bool().Draw(t, "urlsort") {
 			u.Params.SortingRules = []string{"id"}
+		}
+
+		// A filter (it ends up in the self link): a label, or a tree whose
+		// operands are in no particular order.
+		switch rapid.IntRange(0, 5).Draw(t, "urlfilter") {
+		case 0:
+			if l := HostileString(t, "urllabel"); l != "" {
+				u.Params.FilterLabel = l
+			}
+		case 1, 2:
+			leaf := func(f, op string, v any) *jsonapi.Filter { return &jsonapi.Filter{Field: f, Op: op, Val: v} }
+			inner := []*jsonapi.Filter{leaf("c", "=", "2"), leaf("c", "=", "1"), leaf("a", "<", "m")}
+			outer := []*jsonapi.Filter{leaf("b", "=", "z"), leaf("a", "!=", "y"), {Op: "or", Val: rapid.Permutation(inner).Draw(t, "urlfilter-inner")}, leaf("a", "in", []string{"q", "p"})}
+			outer = rapid.Permutation(outer).Draw(t, "urlfilter-outer")
+			u.Params.Filter = &jsonapi.Filter{Op: rapid.SampledFrom([]string{"and", "or"}).Draw(t, "urlfilter-op"), Val: outer[:rapid.IntRange(1, len(outer)).Draw(t, "urlfilter-n")]}
 		}
 	case len(c.Primary) == 1:
 		u.Fragments = []string{c.Primary[0].TS.Name, c.Primary[0].ID()}
